@@ -187,13 +187,18 @@ def run_programs(rep, model, pid, name, program_sets, bound, limit, which):
     rep.families.append(dict(name=name, cases=total, disagreements=dis, rule="real send_*/close()/feed(server Close)/on_disconnect on real threads under a deterministic baton scheduler with a point at every shared-state action (lock ops, reads/writes of the closing/closed flags, each half of sendall, zlib compress/flush, socket close); stateless DFS over schedules with preemption bound %d; each execution is compared action-by-action with Model.Conc.exec on the same schedule and judged on the decoded wire" % bound))
 
 
-def run_programs_lines(rep, pid, name, program_sets, limit, which):
-    """line-level exploration (one preemption at every source line of lomond that thread 0 executes); judged on the wire only"""
+def run_programs_lines(rep, pid, name, program_sets, limit, which, two=0, offset=0):
+    """line-level exploration (one preemption at every source line of lomond that thread 0 executes; with two > 0 also that many
+    schedules per program with a second preemption of thread 0); judged on the wire only"""
+    import itertools
     total = 0
     for programs, compression in program_sets:
         if len(programs) < 2:
             continue
-        for schedule, out in sched.explore_lines(programs, compression, limit=limit):
+        runs = sched.explore_lines(programs, compression, limit=limit)
+        if two:
+            runs = itertools.chain(runs, sched.explore_lines2(programs, compression, limit=two, offset=offset))
+        for schedule, out in runs:
             total += 1
             rep.add_case(repr(("lines", programs, compression, schedule[:0], total)))
             if out.get("deadlock"):
@@ -205,7 +210,7 @@ def run_programs_lines(rep, pid, name, program_sets, limit, which):
                 rep.violation(complaints[0] + " (line-level schedule: thread 0 preempted between two source lines)",
                               scenario=dict(programs=_js(programs), compression=compression, schedule=schedule, lines=True),
                               expected="see statement", actual=dict(wire=[(t, b.hex()[:80]) for t, b in out["wire"]], results=out["results"]), family=name)
-    rep.families.append(dict(name=name, cases=total, rule="the same real threads, but every executed source line of lomond/{frame,compression,websocket,session,mask,message,stream}.py is a scheduling point: thread 0 is preempted once, at each line in turn, thread 1 then runs all / half / a quarter of its steps; judged on the decoded wire (whole frames, per-thread order and content, the peer inflates in wire order)"))
+    rep.families.append(dict(name=name, cases=total, rule="the same real threads, but every executed source line of lomond/{frame,compression,websocket,session,mask,message,stream}.py is a scheduling point: thread 0 is preempted once, at each line in turn, thread 1 then runs all / half / a quarter of its steps; and schedules with a second preemption of thread 0 (p lines, a fraction of thread 1, r more lines, the rest of thread 1, the rest of thread 0; all triples or an even sample); judged on the decoded wire (whole frames, per-thread order and content, the peer inflates in wire order)"))
 
 
 def _js(programs):
